@@ -276,6 +276,24 @@ var NearMissLines = []string{
 	`*/`,
 	`import "strings"`,
 	`import x "h1.tsh"`,
+	// switch statements with few or empty clauses
+	`switch nmI {` + "\ndefault:\n}",
+	`switch nmI {` + "\n}",
+	`switch {` + "\ndefault:\n}",
+	`switch {` + "\n}",
+	`switch nmI {` + "\ndefault:\n// nothing\n}",
+	`switch nmI {` + "\ncase 1:\ndefault:\n}",
+	`switch nmI {` + "\ncase 1:\n}",
+	`switch nmI {` + "\ndefault:\nprint(1)\n}",
+	`switch nmS {` + "\ndefault:\n\n\n}",
+	`switch nmB {` + "\ncase true:\ncase false:\ndefault:\n}",
+	`switch nmI {` + "\ndefault:\ndefault:\n}",
+	`if nmB {` + "\n} else {\n}",
+	`if nmB {` + "\n} else if nmB {\n} else {\n}",
+	`for nmB {` + "\n}",
+	`for {` + "\nbreak\n}",
+	`for i90 := 0; i90 < 1; i90++ {` + "\n}",
+	`for _, e90 := range nmL {` + "\n}",
 	// declarations with several names, an explicit type and ONE multi-value call (or too few / too many values)
 	`var x94, x95 []int = nmSplit()`,
 	`var x96, x97 []string = nmSplit()`,
